@@ -930,7 +930,9 @@ MANIFEST = {
             "Euclidean distance up to rounding (tolerance 1e-9*scale, and never more than 1e-9*|value| + 32 eps*scale; the matrix handed to scipy is compared ENTRY BY ENTRY with the "
             "model's: same infinity pattern, exact where the arithmetic is exact); IEEE rounding is outside the theorems. [T] lsa_contract: every "
             "matrix the real routine hands to scipy is observed in-process and the assignment scipy returned is compared with that "
-            "matrix's optimum, certified by the same Lean-checked dual certificate.",
+            "matrix's optimum, certified by the same Lean-checked dual certificate. A failing input is claimed only inside the statement's "
+            "quantifier (finite births, deaths finite or +inf): the call returns, the value is within tolerance of the specification value and "
+            "SOME warning is raised when a +inf death is dropped; warning wording and NaN/-inf deaths are compared with the model only.",
     "technique": "Lean 4 theorems over a hand-written model with the solver as a contract parameter + differential correspondence "
                  "with Lean-verified dual certificates",
 }
